@@ -3,7 +3,7 @@ from .. import simprop
 
 ID = "C04"
 FAMILY = "C04"
-VARIANTS = ("asan",)
+VARIANTS = ("asan", "rel")      # rel: only to re-judge a case that UBSan stopped (simprop)
 BUDGET = {"quick": dict(examples=80000, seconds=55), "thorough": dict(examples=2000000, seconds=540)}
 NONTRIVIAL = {'multi-cause-same-instant', 'delivered-interrupt', 'wait-ended-by-timeout'}
 PROFILES = [(3, 'timing'), (1, 'mixed'), (1, 'lifecycle')]
